@@ -3,15 +3,21 @@
 package guardiand
 
 // Correspondence harness for C12, admin layer: the real nodePrivilegedService.FindMissingMessages over a real
-// db.Database (RpcBackfill off). Lines go to $VERIF_OUT/dbadm.cases (driver family `db`).
+// db.Database - without backfill (`fmm` lines) and with RpcBackfill against fake public-RPC nodes (`bfill` lines: what the
+// nodes are scripted to answer per sequence, what arrived on the processor's inbound channel, what was reported back).
+// Lines go to $VERIF_OUT/dbadm.cases (driver family `db`).
 
 import (
 	"bufio"
 	"context"
+	"encoding/base64"
 	"encoding/hex"
 	"fmt"
 	"math/rand"
+	"net/http"
+	"net/http/httptest"
 	"os"
+	"sync"
 	"path/filepath"
 	"strconv"
 	"strings"
@@ -19,6 +25,7 @@ import (
 	"time"
 
 	"github.com/alephium/wormhole-fork/node/pkg/db"
+	gossipv1 "github.com/alephium/wormhole-fork/node/pkg/proto/gossip/v1"
 	nodev1 "github.com/alephium/wormhole-fork/node/pkg/proto/node/v1"
 	"github.com/alephium/wormhole-fork/node/pkg/vaa"
 	"go.uber.org/zap"
@@ -58,6 +65,8 @@ func c12fmmTag(err error) string {
 		return "badhex"
 	case st.Code() == codes.Internal && strings.HasPrefix(m, "database operation failed: "):
 		return "internal"
+	case st.Code() == codes.Internal && strings.HasPrefix(m, "failed to backfill VAA: "):
+		return "internal"
 	}
 	return fmt.Sprintf("code%d:%s", st.Code(), strings.ReplaceAll(m, " ", "_"))
 }
@@ -67,6 +76,39 @@ var c12fmmGroups = [][]uint16{
 	{1, 10, 11, 13, 17, 10001, 100},
 	{4, 42, 420},
 	{0, 6, 65, 65535},
+}
+
+// c12node is the script both fake public-RPC nodes answer from: path -> what to do. Anything else is a stray request.
+type c12node struct {
+	mu     sync.Mutex
+	script map[string]string // path -> "s:<base64 json body>" | "a404" | "ajson" | "ab64" | "f500" | "f302"
+	stray  int
+	hits   map[string]int
+}
+
+func (n *c12node) ServeHTTP(w http.ResponseWriter, r *http.Request) {
+	n.mu.Lock()
+	a, ok := n.script[r.URL.Path]
+	if !ok {
+		n.stray++
+	} else {
+		n.hits[r.URL.Path]++
+	}
+	n.mu.Unlock()
+	switch {
+	case !ok, a == "a404":
+		http.NotFound(w, r)
+	case a == "ajson":
+		w.Write([]byte("{not json"))
+	case a == "ab64":
+		w.Write([]byte(`{"vaaBytes":"!!!not base64!!!"}`))
+	case a == "f500":
+		http.Error(w, "boom", http.StatusInternalServerError)
+	case a == "f403":
+		http.Error(w, "no", http.StatusForbidden)
+	case strings.HasPrefix(a, "s:"):
+		w.Write([]byte(a[2:]))
+	}
 }
 
 func TestVerifDbAdmin(t *testing.T) {
@@ -93,13 +135,18 @@ func TestVerifDbAdmin(t *testing.T) {
 		r.Read(b)
 		return b
 	}
+	node := &c12node{script: map[string]string{}, hits: map[string]int{}}
+	srv1, srv2 := httptest.NewServer(node), httptest.NewServer(node)
+	defer srv1.Close()
+	defer srv2.Close()
 	for c := 0; c < ncases; c++ {
 		cid := fmt.Sprintf("adm%d", c+1)
 		d, err := db.Open(t.TempDir())
 		if err != nil {
 			t.Fatal(err)
 		}
-		s := &nodePrivilegedService{db: d, logger: zap.NewNop()}
+		inC := make(chan *gossipv1.SignedVAAWithQuorum, 256)
+		s := &nodePrivilegedService{db: d, logger: zap.NewNop(), signedInC: inC}
 		fmt.Fprintf(w, "reset %s\n", cid)
 		grp := c12fmmGroups[c%len(c12fmmGroups)]
 		tcs := []uint16{grp[0]}
@@ -145,6 +192,113 @@ func TestVerifDbAdmin(t *testing.T) {
 				line += fmt.Sprintf(" out=%s first=%d last=%d", o, resp.FirstSequence, resp.LastSequence)
 			}
 			fmt.Fprintln(w, line)
+		}
+		// FindMissingMessages with RpcBackfill: ask without backfill first (that is the list of ids the nodes will be asked for),
+		// script an answer per id, call, then collect what reached the inbound channel
+		bfill := func(ec uint32, ad vaa.Address, tc uint32) {
+			as := hex.EncodeToString(ad[:])
+			pre, err := s.FindMissingMessages(context.Background(), &nodev1.FindMissingMessagesRequest{EmitterChain: ec, TargetChain: tc, EmitterAddress: as})
+			if err != nil {
+				return
+			}
+			node.mu.Lock()
+			node.script, node.hits, node.stray = map[string]string{}, map[string]int{}, 0
+			var parts []string
+			failedOne := false
+			for _, id := range pre.MissingMessages {
+				f := strings.Split(id, "/")
+				seq := f[3]
+				path := fmt.Sprintf("/v1/signed_vaa/%d/%s/%d/%s", uint16(ec), as, uint16(tc), seq)
+				k := r.Intn(12)
+				switch {
+				case k < 5:
+					// a VAA for exactly this id (unsigned bytes are fine here: verification is the processor's business)
+					sq, _ := strconv.ParseUint(seq, 10, 64)
+					v := &vaa.VAA{Version: 1, EmitterChain: vaa.ChainID(ec), EmitterAddress: ad, TargetChain: vaa.ChainID(tc), Sequence: sq, Payload: bytesN(1 + r.Intn(30))}
+					sg := &vaa.Signature{Index: 0}
+					copy(sg.Signature[:], bytesN(65))
+					v.Signatures = append(v.Signatures, sg)
+					b, _ := v.Marshal()
+					node.script[path] = "s:" + fmt.Sprintf(`{"vaaBytes":"%s"}`, base64.StdEncoding.EncodeToString(b))
+					parts = append(parts, seq+":s:"+c12hex(b))
+				case k == 5:
+					// served, but arbitrary bytes (another message, garbage): still only forwarded
+					b := bytesN(r.Intn(80))
+					node.script[path] = "s:" + fmt.Sprintf(`{"vaaBytes":"%s"}`, base64.StdEncoding.EncodeToString(b))
+					parts = append(parts, seq+":s:"+c12hex(b))
+				case k == 6:
+					node.script[path] = `s:{"somethingElse":1}` // no vaaBytes field: decodes to an empty byte string
+					parts = append(parts, seq+":s:-")
+				case k == 7:
+					node.script[path] = "ajson"
+					parts = append(parts, seq+":a")
+				case k == 8:
+					node.script[path] = "ab64"
+					parts = append(parts, seq+":a")
+				case k == 9 && !failedOne && r.Intn(3) == 0:
+					failedOne = true
+					node.script[path] = []string{"f500", "f403"}[r.Intn(2)]
+					parts = append(parts, seq+":f")
+				default:
+					node.script[path] = "a404"
+					parts = append(parts, seq+":a")
+				}
+			}
+			node.mu.Unlock()
+			nodes := []string{srv1.URL, srv2.URL}
+			switch r.Intn(4) {
+			case 0:
+				nodes = nodes[:1]
+			case 1:
+				nodes = append([]string{"http://127.0.0.1:1"}, nodes...) // an unreachable node in the list
+			}
+			res := "ok"
+			var resp *nodev1.FindMissingMessagesResponse
+			func() {
+				defer func() {
+					if e := recover(); e != nil {
+						res = "panic"
+					}
+				}()
+				var err error
+				resp, err = s.FindMissingMessages(context.Background(), &nodev1.FindMissingMessagesRequest{EmitterChain: ec, TargetChain: tc, EmitterAddress: as, RpcBackfill: true, BackfillNodes: nodes})
+				if err != nil {
+					res = c12fmmTag(err)
+				}
+			}()
+			var fwd []string
+		drain:
+			for {
+				select {
+				case m := <-inC:
+					fwd = append(fwd, c12hex(m.Vaa))
+				default:
+					break drain
+				}
+			}
+			fw := "none"
+			if len(fwd) > 0 {
+				fw = strings.Join(fwd, ";")
+			}
+			sc := "-"
+			if len(parts) > 0 {
+				sc = strings.Join(parts, ",")
+			}
+			node.mu.Lock()
+			stray := node.stray
+			node.mu.Unlock()
+			line := fmt.Sprintf("bfill %s ec=%d addr=%s tc=%d script=%s res=%s", cid, ec, c12hex([]byte(as)), tc, sc, res)
+			if res == "ok" {
+				o := "-"
+				if len(resp.MissingMessages) > 0 {
+					o = strings.Join(resp.MissingMessages, ",")
+				}
+				line += fmt.Sprintf(" out=%s first=%d last=%d", o, resp.FirstSequence, resp.LastSequence)
+			}
+			line += fmt.Sprintf(" fwd=%s stray=%d", fw, stray)
+			fmt.Fprintln(w, line)
+			// the admin service itself must not have written the store: the plain report is what it was before
+			fmm(ec, as, tc)
 		}
 		query := func() {
 			ad := addrs[r.Intn(len(addrs))]
@@ -193,8 +347,15 @@ func TestVerifDbAdmin(t *testing.T) {
 				}
 				val, _ := v.Marshal()
 				fmt.Fprintf(w, "put %s v=%s res=%s key=%s val=%s\n", cid, c12canon(v), res, string(db.VaaIDFromVAA(v).Bytes()), c12hex(val))
+			} else if r.Intn(5) == 0 {
+				bfill(uint32(ecs[r.Intn(len(ecs))]), addrs[r.Intn(len(addrs))], uint32(tcs[r.Intn(len(tcs))]))
 			} else {
 				query()
+			}
+		}
+		for _, ec := range ecs {
+			for _, ad := range addrs {
+				bfill(uint32(ec), ad, uint32(tcs[r.Intn(len(tcs))]))
 			}
 		}
 		for _, ec := range ecs {
